@@ -105,6 +105,20 @@ def generate(repo, emit, src, func_body):
         if got != norm(w):
             nm = re.findall(r'GC_Mark_Item|GC_Recurse|GC_Mark_Stack|GC_Mark|[A-Z][a-z]+_Mark|mark', hdr)
             bad.append(nm[0] if nm else hdr)
+    # --- collection trigger (GC_Set) and the mitems rule (GC_Sweep, GC_Rem)
+    setb = norm(func_body(gc, r'static\s+void\s+GC_Set\s*\(\s*var\s+self\s*,\s*var\s+key\s*,\s*var\s+val\s*\)\s*\{'))
+    want_set = norm('{struct GC* gc = self; if (not gc->running) { return; } gc->nitems++;'
+                    'gc->maxptr = (uintptr_t)key > gc->maxptr ? (uintptr_t)key : gc->maxptr;'
+                    'gc->minptr = (uintptr_t)key < gc->minptr ? (uintptr_t)key : gc->minptr;'
+                    'GC_Resize_More(gc); GC_Set_Ptr(gc, key, (bool)c_int(val));'
+                    'if (gc->nitems > gc->mitems) { GC_Mark(gc); GC_Sweep(gc); }}')
+    rule = 'gc->mitems=gc->nitems+gc->nitems/2+1;'
+    sweepb = norm(func_body(gc, r'void\s+GC_Sweep\s*\(\s*struct\s+GC\*\s*gc\s*\)\s*\{'))
+    remb = norm(func_body(gc, r'static\s+void\s+GC_Rem\s*\(\s*var\s+self\s*,\s*var\s+key\s*\)\s*\{'))
+    if setb == want_set and rule in sweepb and rule in remb:
+        emit('gc_threshold_shape_ok', 'Definition gc_threshold_shape_ok : bool := true.   (* GC_Set trigger nitems > mitems; mitems = n + n/2 + 1 *)')
+    else:
+        emit('gc_threshold_shape_ok', None)
     if bad:
         emit('gc_mark_shape_ok (changed: %s)' % ', '.join(bad), None)
     else:
